@@ -96,6 +96,7 @@ structure MsgIn where
   sender   : Option Bytes := none    -- GetSender(false), none = ErrNoFromAddress
   rcpts    : List Bytes := []        -- GetRecipients
   renderOK : Bool := true            -- Msg.WriteTo succeeds; false = it fails after a prefix
+  big      : Bool := false           -- the content exceeds what the transport buffers while nobody reads
 deriving Repr
 
 structure MsgOut where
@@ -199,6 +200,11 @@ def sendOne (cfg : SendCfg) (c : Conn) (idx : Nat) (m : MsgIn) (wasDelivered : B
           if !m.renderOK then
             -- a prefix of the content went into the DATA stream; the connection is dropped
             let c := (c.ev (.content idx false)).close
+            fail c { reason := .writeContent }
+          else if c.srvDeaf && m.big then
+            -- nobody reads and the content does not fit into the transport's buffers: the write waits
+            -- for the connection deadline (a wait like any other); WriteTo fails, the connection is dropped
+            let c := ((c.ev (.content idx false)).ev (.stall c.armed)).close
             fail c { reason := .writeContent }
           else
             let c := c.ev (.content idx true)
